@@ -176,6 +176,17 @@ func (o *Op) v(i int) Amt {
 var maxU256 = new(big.Int).Sub(new(big.Int).Lsh(big.NewInt(1), 256), big.NewInt(1))
 
 func (a Amt) resolve(ref *big.Int) *big.Int {
+	r := a.resolveRaw(ref)
+	if r.Sign() < 0 { // a reference that went negative (a broken state): amounts on the wire are unsigned
+		return big.NewInt(0)
+	}
+	return r
+}
+
+func (a Amt) resolveRaw(ref *big.Int) *big.Int {
+	if ref == nil {
+		ref = big.NewInt(0)
+	}
 	switch a.Mode {
 	case 0:
 		r := new(big.Int).SetUint64(a.M)
@@ -512,6 +523,7 @@ func (v *View) Resolve(op Op) *TxMeta {
 
 	var typ transaction.TxType
 	var data interface{}
+	var forceGas types.CoinID // set by ops that need a particular commission coin
 	ownerOf := func(pk types.Pubkey) (types.Address, bool) {
 		if c, ok := v.S.CandByPK[pk]; ok {
 			return c.OwnerAddress, true
@@ -562,6 +574,41 @@ func (v *View) Resolve(op Op) *TxMeta {
 			ref = bi(c.Volume)
 		}
 		typ, data = transaction.TypeBuyCoin, transaction.BuyCoinData{CoinToBuy: cb, ValueToBuy: op.v(0).resolve(ref), CoinToSell: cs, MaximumValueToSell: op.v(1).resolve(bal(cs))}
+	case "buyheadroom":
+		// buy a bancor coin up to (and a little across) its max supply, often paying the fee in that coin
+		var best *types.Coin
+		var room *big.Int
+		for _, id := range v.S.CoinIDs {
+			c := v.S.Coins[id]
+			if c.Crr == 0 || c.Version != 0 {
+				continue
+			}
+			h := new(big.Int).Sub(bi(c.MaxSupply), bi(c.Volume))
+			if best == nil || h.Cmp(room) < 0 {
+				best, room = c, h
+			}
+		}
+		if best == nil {
+			typ, data = transaction.TypeBuyCoin, transaction.BuyCoinData{CoinToBuy: v.coinAny(op.x(1)), ValueToBuy: big.NewInt(1), CoinToSell: 0, MaximumValueToSell: bal(0)}
+			break
+		}
+		deltas := []int64{-1000000000000000, -1, 0, 1, 1000000000000, 100000000000000, 500000000000000, 1000000000000000, 100000000000000000}
+		val := new(big.Int).Add(room, big.NewInt(deltas[mod(op.x(1), len(deltas))]))
+		if val.Sign() <= 0 {
+			val = big.NewInt(1)
+		}
+		// the richest holder of the coin buys (it can pay the fee in the coin)
+		holder := sender
+		for i := 0; i < v.NAcct; i++ {
+			if v.S.Balance(Acct(i).Addr, best.ID).Cmp(v.S.Balance(holder, best.ID)) > 0 {
+				holder = Acct(i).Addr
+			}
+		}
+		asAddr(holder, 0)
+		if op.x(2)%3 != 0 {
+			forceGas = types.CoinID(best.ID)
+		}
+		typ, data = transaction.TypeBuyCoin, transaction.BuyCoinData{CoinToBuy: types.CoinID(best.ID), ValueToBuy: val, CoinToSell: 0, MaximumValueToSell: bal(0)}
 	case "createcoin", "recreatecoin":
 		sym := ticker(op.x(0))
 		if op.K == "recreatecoin" && len(v.S.CoinIDs) > 0 && op.x(3)%4 != 3 {
@@ -968,6 +1015,9 @@ func (v *View) Resolve(op Op) *TxMeta {
 	gasCoin := v.coinHeld(sender, op.G)
 	if op.G == 0 {
 		gasCoin = 0
+	}
+	if forceGas != 0 {
+		gasCoin = forceGas
 	}
 	if op.K == "redeem" {
 		gasCoin = types.CoinID(m.GasCoin)
